@@ -17,6 +17,7 @@ from simkit.core import VERIF_DIR, EventLog, HarnessError, ddmin_lists, digest
 from simkit.simtime import CLOCK, EPOCH
 
 PROP = "C05"
+ISOLATE_RUNS = True  # every run in a forked copy of the worker (simkit.core.run_one)
 LEVEL = "exploration"
 BUDGET_S = {"quick": 420, "thorough": 1500}
 CHUNK = 10
@@ -71,6 +72,26 @@ def worker_init() -> None:
     S.CertBlockV21 = CertBlockV21
     S.c10 = c10sim
     validate_model()
+    warm_up()
+
+
+def warm_up() -> None:
+    """Runs are executed in forked copies of this process: do everything that is lazily initialised on first use
+    (device database, signature back end, imports inside functions) once here, not in every copy."""
+    import shutil
+
+    for i, fam in ((0, "control"), (1, "history"), (2, "faulted"), (3, "control"), (4, "history")):
+        plan = gen_plan(fam, i, random.Random(1000 + i), "quick")
+        if i == 3:
+            plan["via_config"] = {"num": "hex", "pck_form": "hex", "pck_always": True, "auto_root_id": True, "new_names": True, "certblock": "file"}
+            plan["keys"]["isk"] = plan["keys"]["curve"]
+        run = Run(plan)
+        try:
+            run.execute()
+        finally:
+            if run.td:
+                shutil.rmtree(run.td, ignore_errors=True)
+    CLOCK.reset()
 
 
 def validate_model() -> None:
@@ -124,6 +145,13 @@ def validate_model() -> None:
 
 def key_path(curve: str, role: str, pub: bool = False) -> str:
     return os.path.join(GOLDEN, "keys", "ec", f"{curve}_{role}.{'pub' if pub else 'pem'}")
+
+
+def root_role(ks: dict, i: int) -> str:
+    """Root i of the key set: one of the four ordinary roots, or a root whose X (rootz) or Y (rooty) coordinate starts
+    with a zero byte (about one key in 128 does)."""
+    sp = ks.get("special")
+    return sp[1] if sp and sp[0] == i else f"root{i}"
 
 
 def pub_xy(path: str) -> bytes:
@@ -280,21 +308,13 @@ def make_cfg_cmd(c: dict, td: str, idx: int):
     raise HarnessError(f"command spec {c}")
 
 
-_SCRATCH = None
-
-
-def scratch_dir() -> str:
-    global _SCRATCH
-    import atexit
-    import shutil
+def scratch_dir(run) -> str:
+    """A private folder for the files of one run's configuration; removed when the run ends."""
     import tempfile
 
-    if _SCRATCH is None or not os.path.isdir(_SCRATCH):
-        _SCRATCH = tempfile.mkdtemp(prefix="verif-c05-")
-        atexit.register(shutil.rmtree, _SCRATCH, True)
-    for f in os.listdir(_SCRATCH):
-        os.unlink(os.path.join(_SCRATCH, f))
-    return _SCRATCH
+    if run.td is None:
+        run.td = tempfile.mkdtemp(prefix="verif-c05-")
+    return run.td
 
 
 # ----------------------------------------------------------------------------------------------
@@ -309,6 +329,7 @@ class Run:
         self.probes: dict = {}
         self.obs: dict = {}
         self.trace: list = []
+        self.td = None
 
     def violation(self, oracle, site, msg, detail=None):
         self.records.append({"oracle": oracle, "site": site, "msg": msg, "detail": detail})
@@ -326,8 +347,8 @@ class Run:
         vc = p["via_config"]
         ks = p["keys"]
         curve = ks["curve"]
-        td = scratch_dir()
-        self.roots_xy = [pub_xy(key_path(curve, f"root{i}", pub=True)) for i in range(ks["nroots"])]
+        td = scratch_dir(self)
+        self.roots_xy = [pub_xy(key_path(curve, root_role(ks, i), pub=True)) for i in range(ks["nroots"])]
         self.pck = gen_bytes(p.get("pck_seed", 1), p["pck_bits"] // 8)
         self.expected_ts = p["timestamp"] if p.get("timestamp") else int(EPOCH + (CLOCK.now_us + CLOCK.wall_offset_us) / 1e6) - 946684800
         self.sign_curve = ks["isk"] or curve
@@ -351,10 +372,10 @@ class Run:
                 cfg["containerKeyBlobEncryptionKey"] = "pck.bin"
         cb_cfg: dict = {}
         for i in range(ks["nroots"]):
-            cb_cfg[f"rootCertificate{i}File"] = key_path(curve, f"root{i}", pub=True)
+            cb_cfg[f"rootCertificate{i}File"] = key_path(curve, root_role(ks, i), pub=True)
         if not vc.get("auto_root_id"):
             cb_cfg["mainRootCertId"] = ks["used"]
-        root_key = key_path(curve, f"root{ks['used']}")
+        root_key = key_path(curve, root_role(ks, ks["used"]))
         if ks.get("isk"):
             cb_cfg["useIsk"] = True
             cb_cfg["iskPublicKey" if vc.get("new_names") else "signingCertificateFile"] = key_path(ks["isk"], "isk", pub=True)
@@ -409,9 +430,9 @@ class Run:
         p = self.plan
         ks = p["keys"]
         curve = ks["curve"]
-        roots_pub = [open(key_path(curve, f"root{i}", pub=True), "rb").read() for i in range(ks["nroots"])]
-        self.roots_xy = [pub_xy(key_path(curve, f"root{i}", pub=True)) for i in range(ks["nroots"])]
-        root_sp = S.PlainFileSP(key_path(curve, f"root{ks['used']}"))
+        roots_pub = [open(key_path(curve, root_role(ks, i), pub=True), "rb").read() for i in range(ks["nroots"])]
+        self.roots_xy = [pub_xy(key_path(curve, root_role(ks, i), pub=True)) for i in range(ks["nroots"])]
+        root_sp = S.PlainFileSP(key_path(curve, root_role(ks, ks["used"])))
         if ks.get("isk"):
             isk_pub = open(key_path(ks["isk"], "isk", pub=True), "rb").read()
             ud = gen_bytes(77, ks.get("isk_user_data", 0)) or None
@@ -485,6 +506,20 @@ class Run:
         from c05.rom31 import RomReject
 
         p = self.plan
+        if p.get("prelude"):
+            # another container was built and exported in this process before (other keys, PCK, timestamp, rights):
+            # nothing of it may leak into this one
+            sub = Run(p["prelude"])
+            try:
+                sub.execute()
+            finally:
+                if sub.td:
+                    import shutil
+
+                    shutil.rmtree(sub.td, ignore_errors=True)
+            self.records += sub.records
+            self.log.add("prelude", sub.log.digest())
+            self.probe("container_built_after_another_in_the_same_process")
         CLOCK.reset()
         CLOCK.advance(p.get("t0_us", 0))
         pre_idx: list = []
@@ -731,8 +766,15 @@ def _region(pos: int, data: bytes) -> str:
 
 
 def execute(plan: dict) -> dict:
+    import shutil
+
     worker_init()
-    return Run(plan).execute()
+    run = Run(plan)
+    try:
+        return run.execute()
+    finally:
+        if run.td:
+            shutil.rmtree(run.td, ignore_errors=True)
 
 
 # ----------------------------------------------------------------------------------------------
@@ -775,13 +817,13 @@ def gen_plan(family: str, i: int, rng: random.Random, tier: str) -> dict:
     nroots = rng.choice([1, 2, 3, 4, 4])
     isk = rng.choice([None, None, curve, "p256", "p384"])
     plan = {
-        "keys": {"curve": curve, "nroots": nroots, "used": rng.randrange(nroots), "isk": isk, "isk_user_data": rng.choice([0, 0, 4, 16, 32, 96]) if isk else 0, "constraints": rng.choice([0, 1, rng.randrange(1 << 32)])},
+        "keys": {"curve": curve, "nroots": nroots, "used": rng.randrange(nroots), "isk": isk, "isk_user_data": rng.choice([0, 0, 4, 16, 32, 96]) if isk else 0, "constraints": rng.choice([0, 1, rng.randrange(1 << 32)]), "special": [rng.randrange(nroots), rng.choice(["rootz", "rooty"])] if rng.random() < 0.15 else None},
         "pck_bits": rng.choice([128, 256]),
         "pck_seed": rng.randrange(1 << 20),
         "rights": rng.randrange(4),
         "encrypted": rng.random() < 0.75,
         "fw": rng.choice([0, 1, rng.randrange(1 << 32)]),
-        "desc": rng.choice([None, "", "a", "exactly16chars__", "longer than sixteen chars", "v1.2"]),
+        "desc": rng.choice([None, "", "a", "exactly16chars__", "longer than sixteen chars", "v1.2", " lead", "trail ", " both ", "in side", "fifteen chars  x"[:15] + " "]),
         "flags": rng.choice([0, 0, 1, 0x8000, rng.randrange(1 << 32)]),
         "timestamp": rng.choice([None, 1, 648887095, rng.randrange(1, 1 << 40), (1 << 64) - 1]),
         "nxp": rng.random() < 0.15,
@@ -821,6 +863,9 @@ def gen_plan(family: str, i: int, rng: random.Random, tier: str) -> dict:
         return o
 
     if family == "history":
+        if rng.random() < 0.35:
+            plan["prelude"] = gen_plan("control", i, rng, tier)
+            plan["prelude"].pop("via_config", None)
         for _ in range(rng.randint(1, 4)):
             r = rng.random()
             if r < 0.45:
@@ -864,6 +909,10 @@ def reductions(plan: dict):
                     yield c
         if o["op"] == "deliver" and o.get("faults"):
             yield from ddmin_lists(plan, [["ops", k, "faults"]])
+    if plan.get("prelude"):
+        c = copy.deepcopy(plan)
+        c.pop("prelude")
+        yield c
     for key, val in (("nxp", False), ("desc", None), ("flags", 0), ("fw", 0), ("t0_us", 0), ("timestamp", 1)):
         if plan.get(key) != val:
             c = copy.deepcopy(plan)
